@@ -12,6 +12,7 @@ pub mod statespace;
 pub mod textparse;
 pub mod vecdrv;
 pub mod vsched;
+pub mod watchdog;
 
 use serde_json::{json, Value};
 use std::collections::{BTreeMap, BTreeSet};
@@ -112,6 +113,11 @@ pub struct Report {
 
 impl Report {
     pub fn new(property: &str, args: &Args) -> Report {
+        // hang watchdog for the unhooked engines (once per process)
+        static STARTED: std::sync::Once = std::sync::Once::new();
+        let prop: &'static str = Box::leak(property.to_string().into_boxed_str());
+        let tier = args.tier.name();
+        STARTED.call_once(|| watchdog::start(prop, tier, 20));
         Report {
             property: property.to_string(),
             tier: args.tier,
@@ -388,4 +394,42 @@ pub fn f64_from_s(s: &str) -> f64 {
 /// Bit-equality with all NaNs identified.
 pub fn same_f64(a: f64, b: f64) -> bool {
     (a.is_nan() && b.is_nan()) || a.to_bits() == b.to_bits()
+}
+
+
+/// Run a child process with a wall-clock limit; `Err` with what happened on a timeout (the child is killed).
+pub fn run_with_timeout(cmd: &mut std::process::Command, limit_s: u64) -> Result<std::process::Output, String> {
+    use std::io::Read;
+    let mut child = cmd.stdout(std::process::Stdio::piped()).stderr(std::process::Stdio::piped()).spawn().map_err(|e| e.to_string())?;
+    let mut out = child.stdout.take().unwrap();
+    let mut err = child.stderr.take().unwrap();
+    let t1 = std::thread::spawn(move || {
+        let mut b = Vec::new();
+        let _ = out.read_to_end(&mut b);
+        b
+    });
+    let t2 = std::thread::spawn(move || {
+        let mut b = Vec::new();
+        let _ = err.read_to_end(&mut b);
+        b
+    });
+    let start = Instant::now();
+    loop {
+        match child.try_wait() {
+            Ok(Some(status)) => {
+                return Ok(std::process::Output { status, stdout: t1.join().unwrap_or_default(), stderr: t2.join().unwrap_or_default() });
+            }
+            Ok(None) => {
+                if start.elapsed().as_secs() > limit_s {
+                    let _ = child.kill();
+                    let _ = child.wait();
+                    let so = t1.join().unwrap_or_default();
+                    let tail: String = String::from_utf8_lossy(&so).lines().rev().take(3).collect::<Vec<_>>().join(" | ");
+                    return Err(format!("did not finish within {} s (killed); last output: {}", limit_s, tail));
+                }
+                std::thread::sleep(std::time::Duration::from_millis(50));
+            }
+            Err(e) => return Err(e.to_string()),
+        }
+    }
 }
